@@ -88,7 +88,9 @@ static void emit_small(int kind, std::size_t t, int w, unsigned long long seed, 
     std::vector<long long> end;
     if (kind == 0) observe<double>(0, t, w, seed, o, end, world_offset, first_iteration);
     else if (kind == 1) observe<float>(1, t, w, seed, o, end, world_offset, first_iteration);
-    else observe<long double>(2, t, w, seed, o, end, world_offset, first_iteration);
+    else if (kind == 2) observe<long double>(2, t, w, seed, o, end, world_offset, first_iteration);
+    // kind 3: multi channel in double - the same numeric type and engine as the PLAIN runs of this process, another number of draws per call
+    else { observe<double>(2, t, w, seed, o, end, world_offset, first_iteration); kind = 2; }
     long long usage = kind == 2 ? 2 : 1; // canonical numbers per call (one raw draw each with this engine)
     long long base = (long long) first_iteration * usage; // stream position at which the observed iteration starts
     for (int r = 0; r != w; ++r)
@@ -124,7 +126,7 @@ int main(int argc, char** argv)
         for (std::size_t t = 0; t <= tmax; ++t)
         {
             emit_small(0, t, w, seed + t);
-            if (w <= 9 && t <= 20) { emit_small(1, t, w, seed + t); emit_small(2, t, w, seed + t); }
+            if (w <= 9 && t <= 20) { emit_small(1, t, w, seed + t); emit_small(2, t, w, seed + t); emit_small(3, t, w, seed + t); }
             if (w >= 2 && w <= 6 && t <= 12)
             {
                 // the communicator is a sub-communicator of a larger world (ranks shifted by 1 or w)
